@@ -113,6 +113,11 @@ let handle kind c =
        if tag <> "ok" then diff "header" ~model:"ok" ~impl:tag
        else begin
          check_eq "header-bytes" tok_of_bytes mh h;
+         (* oracle: the v1 header is the prefix, the length word and the metadata, rounded up to 32 *)
+         let want_len = N.mul (N.div (N.add (len meta) (n_of_int 63)) (n_of_int 32)) (n_of_int 32) in
+         if len h <> want_len then
+           prop "header-length" (Printf.sprintf "metadata of %s bytes: header of %s bytes, the v1 layout prescribes %s"
+                                   (show_n (len meta)) (show_n (len h)) (show_n want_len));
          (* oracle: the documented header reads back as (length, metadata); metadata
             is NUL-terminated in the header, so only NUL-free metadata can read back *)
          if not (List.mem n0 meta) then
@@ -201,6 +206,12 @@ let handle kind c =
            diff "file-bytes" ~model:(Printf.sprintf "first difference at offset %d" (first_diff !st.w_bs final))
              ~impl:(Printf.sprintf "len %d" (List.length final));
          (match created_meta, final_sr with
+          | Some m0, Some ((((hl, _), _), _), _)
+            when init = [] && not (List.mem n0 m0)
+                 && hl <> N.mul (N.div (N.add (len m0) (n_of_int 63)) (n_of_int 32)) (n_of_int 32) ->
+            prop "header-length" (Printf.sprintf "file created with metadata of %s bytes has a header of %s bytes" (show_n (len m0)) (show_n hl))
+          | _ -> ());
+         (match created_meta, final_sr with
           | Some m0, Some ((((_, m1), _), _), _) when m0 <> m1 && not (List.mem n0 m0) ->
             prop "meta-readback" (Printf.sprintf "the file was created with metadata %s and now carries %s"
                                     (clip300 (String.escaped (str m0))) (clip300 (String.escaped (str m1))))
@@ -234,6 +245,22 @@ let handle kind c =
     let (data, data_sr) = read_file_tok c in
     let real = read_parse_obs c in
     (* the harness's encoder against the Coq reader of the layout *)
+    let exact_limit = String.length policy > 11 && String.sub policy (String.length policy - 11) 11 = "-exactlimit" in
+    if exact_limit then begin
+      (* the encoder stored the exact end of the last record as the limit (the layout says "byte
+         offset of the end of counter records"; the library re-rounds it).  The layout checker of
+         this framework wants a 32-aligned limit, so such a file is judged against the encoder's own
+         list: the library has to read back exactly what the independent writer wrote *)
+      let want = norm_obs (match meta_kv meta with Some kv -> kv | None -> [])
+          (List.map (fun (nm, v) -> (decode_stack nm, v)) cs) in
+      let dn = List.map (fun (nm, _) -> str (decode_stack nm)) cs in
+      let distinct = List.length (List.sort_uniq compare dn) = List.length dn in
+      check_eq "parse-of-spec-file" show_obs (obs_of_model (parse data)) real;
+      if distinct && real <> want then
+        prop "library-reads-spec-file"
+          (Printf.sprintf "independent encoder policy %s (limit = exact end of the last record): Parse=%s, written: %s" policy
+             (clip300 (show_obs real)) (clip300 (show_obs want)))
+    end else
     if data_sr = None then diff "spec-file-wf" ~model:"not well-formed" ~impl:policy
     else begin
       let want = norm_obs (match meta_kv meta with Some kv -> kv | None -> [])
